@@ -22,6 +22,8 @@ def outcomes? (t : String) : Option (List (String × Outcome)) :=
     | [h, "o"] => some (h, Outcome.ok)
     | [h, "n"] => some (h, Outcome.netErr)
     | [h, "e"] => some (h, Outcome.otherErr)
+    | [h, "r"] => some (h, Outcome.otherErr)     -- a retryable HTTP status (429 / 502 / 503 / 504): still one failed attempt
+    | [h, "f"] => some (h, Outcome.otherErr)     -- a non-retryable HTTP status (404 / 500)
     | _ => none
 
 def outcomeOf (tbl : List (String × Outcome)) (h : String) : Outcome :=
@@ -92,10 +94,11 @@ def stepBloc (_ : Unit) (kind : String) (args impl : List String) : Option (Unit
         | some .ok => "ok"
         | some _ => "err"
       let pf := boundMonitors "blobclient.Locations" hosts contacted 3
-      let br := match run.result with
+      let retry := (list? ot).any (fun e => e.endsWith "=r" ∧ run.contacted.any (fun h => e == h ++ "=r"))
+      let br := (match run.result with
         | none => "locations.empty"
         | some .ok => s!"locations.ok.after{run.contacted.length}"
-        | some _ => s!"locations.gaveup.after{run.contacted.length}"
+        | some _ => s!"locations.gaveup.after{run.contacted.length}") ++ (if retry then ".retryable-status" else "")
       let _ := res
       pure ((), { obs := [resTok, listTok run.contacted], branch := br, propfails := pf })
     | _ => none
